@@ -329,17 +329,24 @@ macro_rules! lru_seq {
 // @catches touch not moving an existing key to the head, wrong victim on a full LRU, unlink/link_at_head pointer mistakes (head/tail/middle, incl. a wrong `prev` back-pointer that stays latent for the public observers), remove or reset not returning slots to the free list, stale key_map entries after eviction, evict_to_target loop boundary (<= vs <), len/contains/order disagreeing with each other, capacity exceeded, key compares that ignore the last byte or treat the all-zero key as absent
 lru_seq!(c17_hist_c1_t0_a_a, 1, 2, [T0 A A]);
 lru_seq!(c17_hist_c1_t1_a_a, 1, 2, [T1 A A]);
-lru_seq!(c17_hist_c2_t0_a_a, 2, 3, [T0 A A]);
-lru_seq!(c17_hist_c2_t1_a_a, 2, 3, [T1 A A]);
-lru_seq!(c17_hist_c2_t2_a_a, 2, 3, [T2 A A]);
+lru_seq!(c17_hist_c2_t0_t_a, 2, 3, [T0 T A]);
+lru_seq!(c17_hist_c2_t0_n_a, 2, 3, [T0 N A]);
+lru_seq!(c17_hist_c2_t1_t_a, 2, 3, [T1 T A]);
+lru_seq!(c17_hist_c2_t1_n_a, 2, 3, [T1 N A]);
+lru_seq!(c17_hist_c2_t2_t_a, 2, 3, [T2 T A]);
+lru_seq!(c17_hist_c2_t2_n_a, 2, 3, [T2 N A]);
 lru_seq!(c17_hist_c3_t0_t_a, 3, 4, [T0 T A]);
-lru_seq!(c17_hist_c3_t0_n_a, 3, 4, [T0 N A]);
+lru_seq!(c17_hist_c3_t0_r_a, 3, 4, [T0 R A]);
+lru_seq!(c17_hist_c3_t0_x_a, 3, 4, [T0 X A]);
 lru_seq!(c17_hist_c3_t1_t_a, 3, 4, [T1 T A]);
-lru_seq!(c17_hist_c3_t1_n_a, 3, 4, [T1 N A]);
+lru_seq!(c17_hist_c3_t1_r_a, 3, 4, [T1 R A]);
+lru_seq!(c17_hist_c3_t1_x_a, 3, 4, [T1 X A]);
 lru_seq!(c17_hist_c3_t2_t_a, 3, 4, [T2 T A]);
-lru_seq!(c17_hist_c3_t2_n_a, 3, 4, [T2 N A]);
+lru_seq!(c17_hist_c3_t2_r_a, 3, 4, [T2 R A]);
+lru_seq!(c17_hist_c3_t2_x_a, 3, 4, [T2 X A]);
 lru_seq!(c17_hist_c3_t3_t_a, 3, 4, [T3 T A]);
-lru_seq!(c17_hist_c3_t3_n_a, 3, 4, [T3 N A]);
+lru_seq!(c17_hist_c3_t3_r_a, 3, 4, [T3 R A]);
+lru_seq!(c17_hist_c3_t3_x_a, 3, 4, [T3 X A]);
 // @end
 
 // ---- capacity 3 filled, then any operation (length 4) ------------------------------------------------
